@@ -50,6 +50,7 @@ type Stmt struct {
 	NoParse       bool          // PostgreSQL: execute the statement prepared earlier under Name (no Parse message)
 	IdleBefore    time.Duration // the client stays silent for this long before sending the statement
 	Reexec        bool          // PostgreSQL: the (named) statement is bound and executed a second time without a new Parse
+	FetchRows     int           // PostgreSQL: the portal is executed with this row limit, again and again until it is complete (driver fetch size)
 	Pre           []string      // MySQL: statements sent in the text protocol before this one (their answers must be OK)
 	PrepareOnly   bool          // MySQL (own client): COM_STMT_PREPARE only
 	Direct        bool          // MySQL (own client): COM_STMT_EXECUTE with statement id -1 (MariaDB: the last prepared statement)
@@ -346,6 +347,16 @@ func (pw *PgWorld) RunSession(clientID string, script []Stmt) *SessionRun {
 			st := &script[i]
 			if st.Extended && len(st.Params) > 0 && st.Name == "" && !st.NoParse && strings.HasPrefix(strings.ToUpper(strings.TrimSpace(st.SQL)), "SELECT") {
 				st.Name, st.Reexec = fmt.Sprintf("rx%d", i), true
+			}
+		}
+	}
+	if n := int(pw.W.Plan.Sw("fetch")); n > 0 && !pw.mysql {
+		// a driver with a fetch size: prepared SELECTs are executed with a row limit until the portal is complete
+		script = append([]Stmt{}, script...)
+		for i := range script {
+			st := &script[i]
+			if st.Extended && strings.HasPrefix(strings.ToUpper(strings.TrimSpace(st.SQL)), "SELECT") {
+				st.FetchRows = n
 			}
 		}
 	}
@@ -691,7 +702,14 @@ func runPgClient(conn net.Conn, script []Stmt, results []StmtResult) error {
 			if st.Describe {
 				fe.Send(&pgproto3.Describe{ObjectType: 'P'})
 			}
-			fe.Send(&pgproto3.Execute{})
+			if st.FetchRows > 0 {
+				// one pipeline: as many limited executions as a result of up to 8 rows needs, then Sync
+				for k := 0; k < 8/st.FetchRows+2; k++ {
+					fe.Send(&pgproto3.Execute{MaxRows: uint32(st.FetchRows)})
+				}
+			} else {
+				fe.Send(&pgproto3.Execute{})
+			}
 			fe.Send(&pgproto3.Sync{})
 		} else {
 			fe.Send(&pgproto3.Query{String: st.SQL})
